@@ -13,7 +13,7 @@ import time
 
 VERIF = os.path.dirname(os.path.dirname(os.path.abspath(__file__)))
 REPO = os.environ.get("VERIF_REPO", "/repo")
-CACHE = os.path.join(VERIF, ".cache")
+CACHE = os.environ.get("VERIF_CACHE") or os.path.join(VERIF, ".cache")
 TARGET = os.path.join(CACHE, "target")
 BIN = os.path.join(TARGET, "debug")
 SHIM = os.path.join(CACHE, "simfs.so")
